@@ -8,6 +8,8 @@ import Lemmas.LogFanout
 import Lemmas.LogNest
 import Lemmas.LogTree
 import Lemmas.LogNestErrs
+import Lemmas.LogFanoutAny
+import Lemmas.TraceBuf
 /-! # C13 — log handlers deliver each record whole, once, to every sink
 
 Property theorems only.  The definitions (`TL.render`, `TL.deliver`, `TL.withGroup`, `TL.withAttrs`, `TL.Buf.*`,
@@ -221,6 +223,19 @@ theorem derivation_tree_later_derivations_change_nothing (ops more : List DOp) (
   simp only [TL.render]
   rw [h1, h2, paths_append ops more i hlt]
 
+/-- the steps of `runD` ARE the calls the driver executes: one step of a derivation history is `TL.withGroup` /
+    `TL.withAttrs` (non-empty name / list) on the store, applied to a handler whose list is the parent's slice — the new
+    store is the step's store and the new handler's list is the slice the step appends.  (So the two theorems above speak
+    about any sequence of `wg` / `wa` operations the driver runs, the driver's handler table playing the part of `hs`.) -/
+theorem derivation_tree_steps_are_with_calls (d : DState) (parent : Nat) (h : TL.Handler) (name : Bytes)
+    (as : List Attr) (hl : h.list = (d.hs[parent]?).getD { arr := 0, len := 0 }) (hn : name ≠ []) (ha : as ≠ []) :
+    (d.step ⟨parent, .grp name⟩).store = (TL.withGroup d.store h name).1 ∧
+    (d.step ⟨parent, .grp name⟩).hs = d.hs ++ [(TL.withGroup d.store h name).2.1.list] ∧
+    (d.step ⟨parent, .attrs as⟩).store = (TL.withAttrs d.store h as).1 ∧
+    (d.step ⟨parent, .attrs as⟩).hs = d.hs ++ [(TL.withAttrs d.store h as).2.1.list] := by
+  have hne : as.isEmpty = false := by cases as <;> simp_all
+  simp [DState.step, TL.withGroup, TL.withAttrs, hn, hne, hl]
+
 /-- contrast (round 7, the shape of ind7-c13-b one level up): the same tree — parent `p`, its children `a` and `b`,
     then `c` under `a` and `d` under `b` — derived with `append` in place of `make+copy`: `b` overwrites the entry of its
     SIBLING `a`, and the COUSIN `c`, derived from `a` afterwards, inherits the wrong entry; with the code's derivation every
@@ -403,6 +418,48 @@ example :
     s.cons = .writing ⟨0, 0, [0]⟩ ∧ s.chan = [⟨1, 0, [1]⟩] ∧ s.prods.map (·.pending) = [none, none, none] := by
   decide
 
+/-! ### the two models of buffered mode are one: `TL.Buf` (run by `TL.deliver` for the `log` stream, theorems `buf_*`) is
+the abstraction `absBuf` of the protocol state (run for the `sched` stream, theorems `buffered_*`) -/
+
+/-- every step of the protocol IS the corresponding operation of the bounded FIFO on the abstraction: formatting does
+    nothing to it; the `select` of a producer holding item `it` is `Buf.send it.line`, accepted exactly when `Buf.send`
+    accepts; a receive of the living delivery goroutine is `Buf.take`; the return of `Write` is `Buf.finish`, and exactly
+    the item in flight has been written; a whole `Handle` call (`fmt p`, `send p`) is `Buf.send` of the formatted line —
+    the operation the buffered branch of `TL.deliver` starts with -/
+theorem buffer_model_is_abstraction_of_protocol (cfg : Config) (s : State) :
+    (∀ p, absBuf cfg (step cfg s (.fmt p)) = absBuf cfg s) ∧
+    (∀ p pr it, s.prods[p]? = some pr → pr.pending = some it →
+      absBuf cfg (step cfg s (.send p)) = ((absBuf cfg s).send it.line).1 ∧
+      (step cfg s (.send p)).events = s.events ++ [⟨it, s.chan.length, ((absBuf cfg s).send it.line).2⟩]) ∧
+    (s.cons ≠ .dead → absBuf cfg (step cfg s .recv) = (absBuf cfg s).take) ∧
+    (absBuf cfg (step cfg s (.finish .ok)) = (absBuf cfg s).finish.1 ∧
+      (step cfg s (.finish .ok)).writes.map (·.line) = s.writes.map (·.line) ++ (absBuf cfg s).finish.2) ∧
+    (∀ p pr l, s.prods[p]? = some pr → pr.pending = none → cfg.line p pr.next = some l →
+      absBuf cfg (run cfg s [.fmt p, .send p]) = ((absBuf cfg s).send l).1) :=
+  ⟨fmt_refines cfg s, fun p pr it hp hpen => send_refines cfg s p pr it hp hpen, recv_refines cfg s,
+    finish_refines cfg s, fun p pr l hp hi hl => handle_refines cfg s p pr l hp hi hl⟩
+
+/-- … and the macro-step `Buf.drain` of `TL.deliver` (the test sink is not stalled: everything pending is written before
+    the next operation) is the delivery goroutine's loop `finish; take` run until the channel is empty — so `TL.deliver`
+    on a buffered sink is the protocol run `fmt p, send p, recv` followed, when the sink is free, by `(finish, recv)*`:
+    "never blocks" is `buffered_never_blocks` about these steps, not the totality of `TL.deliver` -/
+theorem buffer_drain_is_delivery_loop (cap : Nat) (q : List TL.Bytes) (i : Option TL.Bytes) :
+    TL.Buf.settle (q.length + 1) { cap := cap, inflight := i, queue := q } =
+      TL.Buf.drain { cap := cap, inflight := i, queue := q } :=
+  TL.Buf.drain_is_settle cap q i
+
+/-- the exploration behind the forced-schedule judge is fuel-bounded and NO theorem says the fuel suffices; instead a
+    cut-short exploration is MARKED: out of fuel with work left, `closure` adds `exhaustMark`, nothing removes it, the
+    judge answers "inconclusive" (reported in the evidence, neither a pass nor a finding).  Non-vacuity: fuel 0 with one
+    state to do is marked; the scripts the check runs are not (here: two producers, capacity 1, two permits) -/
+example :
+    let cfg : Config := { cap := 1, line := fun _ _ => some [] }
+    let x0 : XState := { s := init 2, permits := 0 }
+    inconclusiveIn (closure cfg 0 [x0] []) = true ∧ inconclusiveIn (closure cfg 0 [] [x0]) = false ∧
+    inconclusive cfg x0 [.handle 0, .handle 1, .permits 2, .handle 0] = false ∧
+    (outcomes cfg x0 [.handle 0, .handle 1, .permits 2, .handle 0]).length > 0 := by
+  decide
+
 end Protocol
 
 /-! ## tracelog, synchronous mode: every schedule of goroutines that log through one handler family
@@ -516,6 +573,43 @@ example :
       { level := 4, ts := [64], msg := [109], attrs := [] }
     f.writes = [(1, [87, 82, 78, 64, 109, 10]), (3, [87, 82, 78, 64, 109, 10])] ∧
     f.rets = [(1, .nil), (3, .panic 3)] := by
+  decide
+
+/-- the same WITHOUT any assumption on the sinks (synchronous, buffered, stalled, failing, shared by several children):
+    seen from any one sink `k`, a fan-out `Handle` is exactly the successive `TL.deliver` of the renderings of the enabled
+    children that write to `k` (`ML.linesFor`), in child order, on `k`'s own state — final state, `Write` calls and
+    per-call outcomes; the other children and sinks do not exist for it -/
+theorem fanout_any_sinks_per_sink (σ : Store) (ss : ML.Sinks) (m : ML.Handler) (r : Record) (k : Nat) :
+    ML.getSink (ML.handleTL σ ss m r).sinks k =
+      (ML.seqDeliver k (ML.getSink ss k) (ML.linesFor σ r k m.children)).1 ∧
+    ML.writesAt k (ML.handleTL σ ss m r) = (ML.seqDeliver k (ML.getSink ss k) (ML.linesFor σ r k m.children)).2.1 ∧
+    ML.retsAt k (ML.handleTL σ ss m r) = (ML.seqDeliver k (ML.getSink ss k) (ML.linesFor σ r k m.children)).2.2 := by
+  have := ML.foldl_stepTL_at σ r k m.children { sinks := ss }
+  simpa [ML.handleTL, ML.writesAt, ML.retsAt] using this
+
+/-- fan-out over BUFFERED children: for a sink `k` with a delivery channel, every delivery of the fan-out `Handle` to `k`
+    returns nil (the caller never waits for the sink), and what `k` has received by the end of the call followed by what
+    it is still owed (the item inside `Write`, then the channel) is what it was owed before followed by a SUBLIST of the
+    renderings of the enabled children of `k`, each whole, in child order, none twice — a missing one met a full channel
+    (`ML.deliver_buffered`: accepted exactly when the queue was below its capacity at that moment) -/
+theorem fanout_buffered_sink_whole_once_or_dropped (σ : Store) (ss : ML.Sinks) (m : ML.Handler) (r : Record) (k : Nat)
+    (b : Buf) (hb : (ML.getSink ss k).buf = some b) :
+    ML.retsAt k (ML.handleTL σ ss m r) = (ML.linesFor σ r k m.children).map (fun _ => Ret.nil) ∧
+    ∃ acc, acc.Sublist (ML.linesFor σ r k m.children) ∧
+      ML.writesAt k (ML.handleTL σ ss m r) ++ ML.owed (ML.getSink (ML.handleTL σ ss m r).sinks k) =
+        ML.owed (ML.getSink ss k) ++ acc := by
+  obtain ⟨h1, h2, h3⟩ := fanout_any_sinks_per_sink σ ss m r k
+  obtain ⟨i1, acc, hsub, i3⟩ := ML.seqDeliver_buffered k (ML.linesFor σ r k m.children) (ML.getSink ss k) b hb
+  exact ⟨by rw [h3, i1], acc, hsub, by rw [h1, h2, i3]⟩
+
+/-- non-vacuity: two children on ONE buffered sink of depth 1 whose `Write` is stalled with one item in flight: the
+    first child's record is queued, the second child's meets a full channel and is dropped; both deliveries return nil -/
+example :
+    let mk (lvl : Int) : TL.Handler := { level := lvl, names := [], sink := 7, list := { arr := 0, len := 0 } }
+    let ss : ML.Sinks := [(7, { buf := some { cap := 1, inflight := some [1] }, held := true })]
+    let f := ML.handleTL {} ss { children := [mk 0, mk 0] } { level := 0, ts := [64], msg := [109], attrs := [] }
+    f.writes = [] ∧ f.rets = [(7, .nil), (7, .nil)] ∧
+    ML.owed (ML.getSink f.sinks 7) = [[1], [73, 78, 70, 64, 109, 10]] := by
   decide
 
 /-! ### nested fan-out handlers (`multilog.New(multilog.New(a, b), c)`): trees, executed by the driver as trees -/
